@@ -1595,3 +1595,10 @@ class ApplicationEntity:
         invalid = [ii for ii in contexts if not isinstance(ii, PresentationContext)]
         if invalid:
             raise ValueError("'contexts' must be a list of PresentationContext items")
+
+        for cx in contexts:
+            if not cx.abstract_syntax or not cx.transfer_syntax:
+                raise ValueError(
+                    "Each requested presentation context must have an abstract "
+                    "syntax and at least one transfer syntax"
+                )
